@@ -19,7 +19,7 @@ EXTENDS Movie, Reader, Json, SequencesExt
 
 CONSTANTS Base,       \* "plain" | "frag" | "meta"
           MaxOps,     \* number of operations applied (depth)
-          OpKinds     \* subset of {"free", "unk", "swap", "large", "spare"}
+          OpKinds     \* subset of {"free", "unk", "swap", "large", "spare", "opt"}; "opt": optional boxes (edts/elst, mehd)
 
 VARIABLES ops, out
 vars == <<ops, out, file>>
@@ -56,7 +56,7 @@ FragDefMovie ==
                  << [ track |-> 1, base |-> "moof", tfhdDur |-> Some(<<4>>), tfdt |-> <<20>>, tfdtV |-> 0,
                       durs |-> None, sizes |-> <<3, 3>>, cts |-> None, trunV |-> 0, defSize |-> Some(3) ] >> >> ]
 \* "fragmf": the same fragmented movie with the media data of every fragment BEFORE its moof
-TheFragMovie == CASE Base = "fragdef" -> FragDefMovie
+TheFragMovie == CASE Base \in {"fragdef", "fragdefsplit"} -> FragDefMovie
                   [] Base = "fragmf" -> [mdatFirst |-> TRUE] @@ FragMovie
                   [] OTHER -> FragMovie
 
@@ -70,7 +70,7 @@ OpsAt(root, p) ==
   LET n == NodeAt(root, p)
       top == p = <<>>
       iter == top \/ n.t \in IterTypes
-      lo == IF top THEN 2 ELSE 1                          \* ftyp stays first
+      lo == IF top /\ Base \notin {"fragsplit", "fragdefsplit"} THEN 2 ELSE 1   \* ftyp stays first
       hi == IF top /\ Base = "plaineof" THEN Len(n.kids) ELSE Len(n.kids) + 1   \* a to-end-of-file mdat stays last
   IN (IF iter /\ "free" \in OpKinds
       THEN {[op |-> "free", path |-> p, at |-> i, len |-> ln, big |-> bg] : i \in lo..hi, ln \in {0, 5}, bg \in BOOLEAN} ELSE {})
@@ -84,20 +84,32 @@ OpsAt(root, p) ==
            THEN {[op |-> "swap", path |-> p, i |-> i, j |-> j] : i \in 2..Len(n.kids), j \in 2..Len(n.kids)} \
                 {x \in {[op |-> "swap", path |-> p, i |-> i, j |-> j] : i \in 2..Len(n.kids), j \in 2..Len(n.kids)} : x.i >= x.j}
            ELSE {})
+     \cup (IF "opt" \in OpKinds /\ ~top /\ n.t = TRAK /\ \A i \in 1..Len(n.kids) : n.kids[i].t # EDTS
+           THEN {[op |-> "edts", path |-> p, at |-> i, ver |-> v] : i \in 1..(Len(n.kids) + 1), v \in {0, 1}} ELSE {})
+     \cup (IF "opt" \in OpKinds /\ ~top /\ n.t = MVEX /\ \A i \in 1..Len(n.kids) : n.kids[i].t # MEHD
+           THEN {[op |-> "mehd", path |-> p, at |-> i, ver |-> v] : i \in 1..(Len(n.kids) + 1), v \in {0, 1}} ELSE {})
      \cup (IF "large" \in OpKinds /\ ~top /\ ~n.large /\ ~n.eof THEN {[op |-> "large", path |-> p]} ELSE {})
      \cup (IF "spare" \in OpKinds /\ ~top /\ n.leaf /\ n.t \in SpareTypes /\ n.spare = <<>>
            THEN {[op |-> "spare", path |-> p, len |-> 3]} ELSE {})
 
-IsFrag == Base \in {"frag", "fragdef", "fragmf", "fragemsg"}
-BaseTree == IF IsFrag THEN FragTreeZero(TheFragMovie, "one") ELSE PlainTree(PlainMovie, ZeroOffsets(PlainMovie))
+IsFrag == Base \in {"frag", "fragdef", "fragmf", "fragemsg", "fragsplit", "fragdefsplit"}
+\* "fragsplit": the fragments as a media segment of their own (opened against the initialization
+\* segment), starting with a segment type box as DASH segments do
+Delivery == IF Base \in {"fragsplit", "fragdefsplit"} THEN "split" ELSE "one"
+STYP == <<115, 116, 121, 112>>
+\* "plainurl": the data references name an external location (a non-empty C string in dref/url)
+ThePlainMovie == IF Base = "plainurl" THEN [urlloc |-> <<104, 116, 116, 112, 58, 47, 47, 120, 47, 121, 46, 109, 112, 52>>] @@ PlainMovie ELSE PlainMovie
+BaseTree == IF IsFrag THEN FragTreeZero(TheFragMovie, Delivery) ELSE PlainTree(ThePlainMovie, ZeroOffsets(ThePlainMovie))
 \* "plaineof": the media data box is the last box and says "to the end of the file" (size field 0)
 \* "fragemsg": an event message box (version 0 / version 1) in front of each of the two moofs
 Pre == CASE Base = "plaineof" -> <<[op |-> "eof", path |-> <<3>>]>>
          [] Base = "fragemsg" -> <<[op |-> "emsg", path |-> <<>>, at |-> 3, ver |-> 0], [op |-> "emsg", path |-> <<>>, at |-> 6, ver |-> 1]>>
+         [] Base = "fragsplit" -> <<[op |-> "unk", path |-> <<>>, at |-> 1, cc |-> STYP, len |-> 8, big |-> FALSE]>>
          [] OTHER -> <<>>
 Applicable(os0) == Let(Pre \o os0, LAMBDA os : Let(ApplyOps(BaseTree, os, 1), LAMBDA root : UNION {OpsAt(root, p) : p \in Paths(root)}))
 
-RenderIt(os) == IF IsFrag THEN RenderFrag(TheFragMovie, "one", Pre \o os).file ELSE RenderPlain(PlainMovie, Pre \o os)
+RenderIt(os) == IF IsFrag THEN RenderFrag(TheFragMovie, Delivery, Pre \o os).file ELSE RenderPlain(ThePlainMovie, Pre \o os)
+InitBytes == IF Delivery = "split" THEN RenderFrag(TheFragMovie, "split", <<>>).init ELSE <<>>
 ImgOf(bytes) == [start |-> <<>>, len |-> FromInt(Len(bytes)), segs |-> <<[off |-> <<>>, bytes |-> bytes]>>]
 
 \* what the specification's decoder reads back from a rendered layout, without the offsets
@@ -107,7 +119,8 @@ ViewOf(f) == [id \in {f.tracks[i].id : i \in 1..Len(f.tracks)} |->
                      LET s == tr.samples[k] IN
                      [size |-> s.size, start |-> s.start, dur |-> s.dur, cts |-> s.cts, sync |-> s.sync,
                       bytes |-> Win(f.img, s.off, s.size)]]]
-Decoded(bytes) == DecodeInput([img |-> ImgOf(bytes), has_init |-> FALSE])
+Decoded(bytes) == IF Delivery = "split" THEN DecodeInput([img |-> ImgOf(bytes), has_init |-> TRUE, init |-> ImgOf(InitBytes)])
+                  ELSE DecodeInput([img |-> ImgOf(bytes), has_init |-> FALSE])
 
 Init == /\ ops = <<>> /\ RInit
         /\ out = [done |-> FALSE, view |-> <<>>, bytes |-> <<>>, fields |-> <<>>]
@@ -129,8 +142,9 @@ Spec == Init /\ [][Next]_vars
 
 \* the reference view: the unmodified layout
 RefView == ViewOf(Decoded(CASE Base \in {"fragmf", "fragemsg"} -> RenderFrag(FragMovie, "one", <<>>).file
-                            [] Base = "plaineof" -> RenderPlain(PlainMovie, <<>>)
+                            [] Base = "fragsplit" -> RenderFrag(FragMovie, "split", <<>>).file
+                            [] Base \in {"plaineof", "plainurl"} -> RenderPlain(PlainMovie, <<>>)
                             [] OTHER -> RenderIt(<<>>)))
 LayoutInvariant == out.done => out.view = RefView
-Emit == out.done => PrintT("CASE " \o ToJson([file |-> out.bytes, ops |-> ops, base |-> Base, fields |-> out.fields]))
+Emit == out.done => PrintT("CASE " \o ToJson([file |-> out.bytes, ops |-> ops, base |-> Base, fields |-> out.fields, init |-> InitBytes]))
 =============================================================================
